@@ -792,7 +792,8 @@ func (r *Runner) Exec(idx int, st Step) error {
 		w.Restart()
 		r.Labels["restart"] = true
 	case "fault":
-		kinds := []kubesim.Fault{kubesim.FaultErrorBefore, kubesim.FaultLostResponse, kubesim.FaultCrash, kubesim.FaultCrashAfter}
+		kinds := []kubesim.Fault{kubesim.FaultErrorBefore, kubesim.FaultLostResponse, kubesim.FaultCrash, kubesim.FaultCrashAfter,
+			kubesim.FaultStatusInternal, kubesim.FaultStatusTooManyRequests, kubesim.FaultStatusUnavailable, kubesim.FaultStatusTimeout}
 		r.faultKind = kinds[mod(st.J, len(kinds))]
 		r.faultNCall = 1 + mod(st.I, 40)
 	case "injectTouch":
